@@ -131,6 +131,7 @@ public:
     //! \brief Returns the next best point to compute, returns empty vector if no points are available.
     std::vector<double> next(size_t remaining_budget){
         size_t this_batch = std::min(remaining_budget, num_batch);
+        if (this_batch == 0) return std::vector<double>(); // no budget left, nothing to hand out
         size_t i = 0;
         while((i < num_candidates) && (status[i] != free)) i++;
         if (i == num_candidates) return std::vector<double>();
